@@ -46,6 +46,9 @@ func (in *Interp) chanReady(ch *ChanObj, send bool) Term {
 		return mkBool(false)
 	}
 	if ch.Env != "" {
+		if ch.EnvReady != nil {
+			return in.call(ch.EnvReady, nil).(Term)
+		}
 		return ch.EnvV.(Term)
 	}
 	if send {
@@ -56,6 +59,9 @@ func (in *Interp) chanReady(ch *ChanObj, send bool) Term {
 
 func (in *Interp) chanTake(ch *ChanObj, et types.Type) (Value, Term) {
 	if ch.Env != "" {
+		if ch.EnvTake != nil {
+			in.call(ch.EnvTake, nil)
+		}
 		return in.zero(et), mkBool(ch.Env != "closed-when-ready")
 	}
 	if len(ch.Buf) > 0 {
